@@ -153,7 +153,10 @@ def expected(ym, k):
     if loads:
         rows = [r for r in ym.d.get("load_throughput", []) if mem_ok(r, loads[0])]
         typed = [r for r in rows if r.get("dst") is not None and r.get("dst") == rtype]
-        lu = (typed[0] if typed else rows[0])["port_pressure"] if rows else ym.d["load_throughput_default"]
+        # the statement: load micro-ops "for its addressing mode and register type": a row typed for this register type, else a row
+        # that holds for every register type (no dst), else - only rows for other types - the first row
+        untyped = [r for r in rows if r.get("dst") is None]
+        lu = (typed[0] if typed else untyped[0] if untyped else rows[0])["port_pressure"] if rows else ym.d["load_throughput_default"]
         mult = (ym.d.get("load_throughput_multiplier") or {}).get(rtype, 1) if "load_throughput_multiplier" in ym.d else 1
         data = [a + b for a, b in zip(data, ym.avg(lu, mult))]
         uops += list(lu)
